@@ -97,5 +97,12 @@ theorem shape :
       "kvElection.handleWatchEvent"] ∧
     Gen.becomeLeaderRefusesWhenLeading = true ∧ Gen.roundChecksLeader = true := by decide
 
+/-- The order in which the two callbacks *start* (the promotion callback runs in its own goroutine): the promotion
+    goroutine signals that it is about to call OnPromote, and whoever ends the term — `becomeFollower`, `Stop`,
+    `StopWithContext` — waits for that signal inside the critical section that clears the flag, before any OnDemote
+    can be invoked.  Together with the dispatch order proved above this makes the model's event order the order an
+    observer sees under real parallelism (checked by the stress mode). -/
+theorem callback_start_order_shape : Gen.promoteSignalsStart = true ∧ Gen.termEndAwaitsPromoteStart = true := by decide
+
 
 end NLE.Theorems.C08
